@@ -843,6 +843,75 @@ func (g *warmGen) genHistoryWarm() []hTx {
 	return txs
 }
 
+// c03GenAndRun is histGen.genAndRun (same draws from the random stream) that survives a panic of the code under test:
+// it then returns the transactions generated so far, the panicking one last
+func c03GenAndRun(g *histGen, h *harnessDb) (txs []hTx, obs string, pan string) {
+	if g.p.endInDelete {
+		txs, obs = g.genAndRun(h)
+		return txs, obs, ""
+	}
+	var ob strings.Builder
+	defer func() {
+		if r := recover(); r != nil {
+			obs, pan = ob.String(), "panic: "+fmt.Sprint(r)
+		}
+	}()
+	n := 1 + g.r.intn(g.p.maxTx)
+	for i := 0; i < n; i++ {
+		g.refresh(h)
+		txs = append(txs, g.genTx())
+		ob.WriteString(h.runTx(&txs[len(txs)-1]))
+	}
+	return txs, ob.String(), ""
+}
+
+// c03RunHistory runs a history like runHistory.  When the code under test PANICS inside a transaction (an index that does
+// not mirror the entities makes e.g. setIndex.ProcessBeforeDelete walk a bucket that is not there), the case is cut after
+// the first panicking transaction, the observation to the transactions before it, and the observation of the last of
+// them gets the token OPPANIC:<hex of the panic value> (checks/c03.py: the index oracles see the state the panicking transaction started in, and report the
+// panic itself when they find nothing).  A history whose first transaction panics is an error of the run, as before.
+func c03RunHistory(w *wiring, txs []hTx, tmp string) (string, string, error) {
+	try := func(t []hTx) (c, obs string, err error, pan string) {
+		defer func() {
+			if r := recover(); r != nil {
+				pan = "panic: " + fmt.Sprint(r)
+			}
+		}()
+		c, obs, err = runHistory(w, t, tmp)
+		return
+	}
+	c, obs, err, pan := try(txs)
+	if pan == "" {
+		return c, obs, err
+	}
+	for n := 1; n <= len(txs); n++ {
+		w.sharedBase = nil
+		c2, obs2, err2, pan2 := try(txs[:n])
+		if err2 != nil {
+			return "", "", err2
+		}
+		if pan2 == "" {
+			c, obs = c2, obs2
+			continue
+		}
+		if n == 1 {
+			return "", "", fmt.Errorf("the first transaction of a history panics: %s", pan2)
+		}
+		if k := strings.LastIndex(obs, " ST"); k >= 0 {
+			obs = obs[:k] + " OPPANIC:" + hxs(pan2) + obs[k:]
+		}
+		// the case keeps the panicking transaction as its last one (the observation has one segment less)
+		var cb strings.Builder
+		cb.WriteString(w.text())
+		for i := 0; i < n; i++ {
+			cb.WriteString(" ")
+			cb.WriteString(w.txText(&txs[i]))
+		}
+		return cb.String(), obs, nil
+	}
+	return "", "", fmt.Errorf("a history panics (%s) but none of its prefixes does", pan)
+}
+
 func runStoreC03s(o *opts) error {
 	prof := profileFor(o.get("profile", "c03"))
 	cases := newLineWriter(o.out, "cases.txt")
@@ -875,7 +944,7 @@ func runStoreC03s(o *opts) error {
 			if err != nil {
 				return fmt.Errorf("corpus %s: %v", cp, err)
 			}
-			c, obs, err := runHistory(w, txs, tmp)
+			c, obs, err := c03RunHistory(w, txs, tmp)
 			if err != nil {
 				return err
 			}
@@ -902,7 +971,7 @@ func runStoreC03s(o *opts) error {
 			txs = (&warmGen{histGen: g, cross: cross}).c03bRegroupHistory(sepK, curSep)
 			stats["histories_regroup"]++
 			var err error
-			c, obs, err = runHistory(w, txs, tmp)
+			c, obs, err = c03RunHistory(w, txs, tmp)
 			if err != nil {
 				return err
 			}
@@ -910,7 +979,7 @@ func runStoreC03s(o *opts) error {
 			txs = (&warmGen{histGen: g, cross: cross}).c03fFamilyHistory(famK)
 			stats["histories_family"]++
 			var err error
-			c, obs, err = runHistory(w, txs, tmp)
+			c, obs, err = c03RunHistory(w, txs, tmp)
 			if err != nil {
 				return err
 			}
@@ -920,7 +989,8 @@ func runStoreC03s(o *opts) error {
 			if err != nil {
 				return err
 			}
-			txs, obs = g.genAndRun(h)
+			var pan string
+			txs, obs, pan = c03GenAndRun(g, h)
 			h.close()
 			var cb strings.Builder
 			cb.WriteString(w.text())
@@ -929,12 +999,19 @@ func runStoreC03s(o *opts) error {
 				cb.WriteString(w.txText(&txs[k]))
 			}
 			c = cb.String()
+			if pan != "" {
+				// the code under test panicked in the last transaction generated: the history so far, run again and cut
+				stats["histories_live_panic"]++
+				if c, obs, err = c03RunHistory(w, txs, tmp); err != nil {
+					return err
+				}
+			}
 			stats["histories_live"]++
 		} else {
 			txs = (&warmGen{histGen: g, cross: cross, typed: c03tTypedKeys(w) != nil}).genHistoryWarm()
 			stats["histories_warm"]++
 			var err error
-			c, obs, err = runHistory(w, txs, tmp)
+			c, obs, err = c03RunHistory(w, txs, tmp)
 			if err != nil {
 				return err
 			}
@@ -1019,6 +1096,9 @@ func runStoreC03s(o *opts) error {
 	// (store_c03b.go; own random stream): live, warm, regrouping and family histories in turn, one separator per group
 	rb := newRng(o.seed*32452843 + 41)
 	nSep := n / 4
+	if o.thorough() && o.n == 0 || n > 6000 {
+		nSep = n / 6 // thorough tier: the whole run stays within its time budget
+	}
 	for i := 0; i < nSep; i++ {
 		grp := i / 4
 		w := wiringByName(c03bStream[grp%len(c03bStream)])
